@@ -1,6 +1,6 @@
 (* Extraction of the executable models (ExtrOcamlBasic only; Z, nat, positive stay Coq datatypes). *)
 From Coq Require Import ZArith List Bool.
-From MV Require Import Prelude.Py Gen.TieredTime Gen.UpdateMin Time.Spec Static.Groups Static.Connect Static.Build Static.Cycle Static.Attrs Sched.Timing Sched.Plane Sched.Link Ext.Adapters Ext.Util.
+From MV Require Import Prelude.Py Gen.TieredTime Gen.UpdateMin Time.Spec Static.Groups Static.Connect Static.Build Static.Cycle Static.Attrs Sched.Timing Sched.Plane Sched.Link Ext.Adapters Ext.Util Ext.RT.
 Require Extraction.
 Require Import ExtrOcamlBasic.
 Extraction Language OCaml.
@@ -18,4 +18,5 @@ Extraction "../build/model.ml"
   prepare mkScen mkConn build ancestors cycle_check walk_delay izero
   Attrs.parse_attrs Attrs.parse_set_triple isub iand ior seqb mem mkDesc
   start deliver meta_type mkStart
-  connect_evenly connect_randomly_uneven connected_set connect_many_to_one.
+  connect_evenly connect_randomly_uneven connected_set connect_many_to_one
+  may_begin rt_check set_event rt_progress.
